@@ -1248,3 +1248,71 @@ def rule_bound_copy_selection(check, rule):
         else:
             check.holds(rule, st, 'the bound copy is built from a selection adjusted to the bound function', key=key)
     check.floor(rule, 'default getters of the descriptor', n, 1)
+
+
+def rule_prepare_admissibility(check, rule):
+    """C12.R1a (mutant sweep 5): "inadmissible selections (... positional-only after a regular parameter, star parameters) raise ValueError at
+    decoration time".  In _prepare: (a) the `raise` for a positional-only request that comes after a regular parameter is guarded by a flag,
+    and that flag is set to True exactly where a positional-or-keyword parameter is left unconverted; (b) the branch for parameters that
+    are not positional-or-keyword raises for a selected name unless the parameter already is of the requested kind."""
+    import ast
+    from .index import norm
+    repo = check.repo
+    fi = repo.func(PT + '._prepare')
+    check.analysed(fi)
+    st = site_of(fi, fi.node)
+    # (a)
+    key = '_prepare|after-regular-flag'
+    flagged = None
+    for i_ in ast.walk(fi.node):
+        if isinstance(i_, ast.If) and isinstance(i_.test, ast.Name) and any(isinstance(r, ast.Raise) for r in i_.body):
+            # a *flag*: a name the function initialises to False (directly or in a chain `a = b = False`)
+            nm = i_.test.id
+            bools = set()
+            for _ in range(3):
+                for a in ast.walk(fi.node):
+                    if isinstance(a, ast.Assign) and ((isinstance(a.value, ast.Constant) and isinstance(a.value.value, bool)) or
+                                                      (isinstance(a.value, ast.Name) and a.value.id in bools)):
+                        bools.update(t.id for t in a.targets if isinstance(t, ast.Name))
+            if nm in bools:
+                flagged = i_
+                break
+    if flagged is None:
+        check.inconclusive(rule, st, 'the guard of the "comes after a regular parameter" raise was not found', key=key)
+    else:
+        flag = flagged.test.id
+        sets_true = [a for a in ast.walk(fi.node) if isinstance(a, ast.Assign) and any(isinstance(t, ast.Name) and t.id == flag for t in a.targets)
+                     and isinstance(a.value, ast.Constant) and a.value.value is True
+                     and not any(isinstance(x, ast.For) for x in [getattr(a, '_parent', None)])]
+        in_loop_true = [a for a in sets_true if any(isinstance(p_, ast.For) for p_ in _ancestors(a))]
+        appends_plain = [a for a in in_loop_true if any(
+            isinstance(c, ast.Call) and isinstance(c.func, ast.Attribute) and c.func.attr == 'append' and c.args and isinstance(c.args[0], ast.Name)
+            for s_ in getattr(a._parent, 'body', []) + getattr(a._parent, 'orelse', []) for c in ast.walk(s_))]
+        if in_loop_true and appends_plain:
+            check.holds(rule, site_of(fi, in_loop_true[0]), 'the flag guarding the raise is set where a regular parameter is left unconverted', key=key)
+        else:
+            check.violation(rule, site_of(fi, flagged), 'the flag `%s` that guards "requested positional-only, but comes after a regular parameter" is never set to '
+                            'True inside the loop: posoargs(\'b\') on f(a, b) is accepted and advertises a signature Python itself rejects' % flag, key=key,
+                            witness="posoargs('b')(lambda a, b: None) must raise ValueError")
+    # (b)
+    key = '_prepare|non-pok-selected'
+    raises = []
+    for i_ in ast.walk(fi.node):
+        if isinstance(i_, ast.If) and 'POSITIONAL_OR_KEYWORD' in norm(i_.test) and '.kind' in norm(i_.test) and any(isinstance(p_, ast.For) for p_ in _ancestors(i_)):
+            neg = isinstance(i_.test, ast.UnaryOp) or any(isinstance(o, (ast.NotEq, ast.IsNot)) for c_ in ast.walk(i_.test) if isinstance(c_, ast.Compare) for o in c_.ops)
+            other = i_.body if neg else i_.orelse
+            raises += [r for s_ in other for r in ast.walk(s_) if isinstance(r, ast.Raise) and r.exc is not None]
+    if raises:
+        check.holds(rule, site_of(fi, raises[0]), 'a selected parameter that is neither positional-or-keyword nor already of the requested kind raises ValueError',
+                    key=key)
+    else:
+        check.violation(rule, st, 'no ValueError for a selected parameter that is not positional-or-keyword (a star parameter, a positional-only one asked to '
+                        'become keyword-only): the name is silently ignored or reported as "not found"', key=key,
+                        witness="kwoargs('args')(lambda *args: None) must raise ValueError")
+
+
+def _ancestors(node):
+    t = getattr(node, '_parent', None)
+    while t is not None:
+        yield t
+        t = getattr(t, '_parent', None)
